@@ -329,8 +329,12 @@ class Part(object):
             measures[0][1] - measures[0][0]
             < self.time_signature_map(0)[beats_idx] * divs_per_beat
         ):
-            measures[0][0] = (
-                measures[0][1] - self.time_signature_map(0)[beats_idx] * divs_per_beat
+            # (divs_per_beat comes from an interpolation: round, do not truncate)
+            measures[0][0] = int(
+                np.round(
+                    measures[0][1]
+                    - self.time_signature_map(0)[beats_idx] * divs_per_beat
+                )
             )
 
         if len(measures) == 0:  # no measures in the piece
@@ -390,8 +394,12 @@ class Part(object):
             measures[0][1] - measures[0][0]
             < self.time_signature_map(0)[beats_idx] * divs_per_beat
         ):
-            measures[0][0] = (
-                measures[0][1] - self.time_signature_map(0)[beats_idx] * divs_per_beat
+            # (divs_per_beat comes from an interpolation: round, do not truncate)
+            measures[0][0] = int(
+                np.round(
+                    measures[0][1]
+                    - self.time_signature_map(0)[beats_idx] * divs_per_beat
+                )
             )
 
         if len(measures) == 0:  # no measures in the piece
